@@ -24,3 +24,4 @@ def run(prog, rep):
     from ..rules import r_order as _ro19
     _ro19.run_name_first(prog, rep)
     _ro19.run_lookup(prog, rep)
+    _rkx.run_getter_raw(prog, rep)
